@@ -3,6 +3,7 @@ import itertools
 import json
 import os
 import random
+import re
 
 import climain
 import core
@@ -180,6 +181,71 @@ def system(R, rng, tier):
                                      "input": inp, "observed": (r2["traceback"] or "")[-300:], "signature": None})
 
 
+def system_multi(R, rng, tier):
+    """Several files, baseline written under either aggregation mode; unchanged code reports nothing; a duplicated finding
+    is reported with the location of every occurrence in the human-readable formats too."""
+    import shutil
+    d = os.path.join(impl.scratch(), "c07m")
+    n = 8 if tier == "quick" else 80
+    keys = sorted(STMTS)
+    for it in range(n):
+        shutil.rmtree(d, ignore_errors=True)
+        os.makedirs(d)
+        contents = {"a.py": [rng.choice(keys) for _ in range(rng.randint(1, 3))], "b.py": [rng.choice(keys) for _ in range(rng.randint(1, 3))],
+                    "c.py": [rng.choice(keys) for _ in range(rng.randint(0, 2))]}
+        for fn, ks in contents.items():
+            open(os.path.join(d, fn), "w").write(program(ks))
+        agg = rng.choice(["vuln", "file"])
+        basef = os.path.join(d, "base.json")
+        climain.run_main(["-q", "-r", "-f", "json", "-a", agg, "-o", basef, "."], cwd=d)
+        os.rename(basef, os.path.join(impl.scratch(), "c07m_base.json"))
+        basef = os.path.join(impl.scratch(), "c07m_base.json")
+        dup = rng.choice([None, "a.py", "b.py"])
+        if dup:
+            k = rng.choice(contents[dup])
+            contents[dup] = contents[dup] + [k]
+            open(os.path.join(d, dup), "w").write(program(contents[dup]))
+        r = climain.run_main(["-q", "-r", "-b", basef, "-f", "json", "."], cwd=d)
+        inp = {"files": contents, "baseline_aggregation": agg, "duplicated_in": dup}
+        R.case(("multi", it), nontrivial=True, sample=dict(inp, exit=r["exit"]))
+        R.count("multi:" + agg)
+        if r["exception"]:
+            R.violations.append({"what": "scan of several files with a baseline ends in a traceback (%s)" % r["exception"], "input": inp,
+                                 "observed": (r["traceback"] or "")[-300:], "signature": None})
+            continue
+        rep = json.loads(r["stdout"])["results"]
+        if dup is None and (rep or r["exit"] != 0):
+            R.violations.append({"what": "unchanged code rescanned against its own report (written with -a %s) reports %d findings (exit %s)" % (agg, len(rep), r["exit"]),
+                                 "input": inp, "observed": [(x["filename"], x["test_id"], x["line_number"]) for x in rep][:6], "signature": None})
+        if dup is not None:
+            tid = {"A": "B101", "E": "B102", "P": "B105", "Q": "B105"}[k]
+            mine = [x for x in rep if os.path.basename(x["filename"]) == dup and x["test_id"] == tid]
+            others = [x for x in rep if not (os.path.basename(x["filename"]) == dup and x["test_id"] == tid)]
+            if not mine or r["exit"] != 1:
+                R.violations.append({"what": "a duplicated finding (%s in %s) is not reported against the baseline" % (tid, dup), "input": inp,
+                                     "observed": [(x["filename"], x["test_id"]) for x in rep][:6], "signature": None})
+            if others and not (tid == "B105"):
+                R.violations.append({"what": "findings the baseline accounts for are reported again", "input": inp,
+                                     "observed": [(x["filename"], x["test_id"], x["line_number"]) for x in others][:6], "signature": None})
+            # human-readable formats list every occurrence of the reported identity with its location
+            occ = [i for i, kk in enumerate(contents[dup]) if {"A": "B101", "E": "B102", "P": "B105", "Q": "B105"}[kk] == tid and (tid != "B105" or kk == k)]
+            full = climain.run_main(["-q", "-f", "json", os.path.join(d, dup)])
+            lines_now = sorted(x["line_number"] for x in json.loads(full["stdout"])["results"]
+                               if x["test_id"] == tid and (tid != "B105" or x["issue_text"] == [y for y in mine][0]["issue_text"])) if mine else []
+            for fmt in ("txt", "screen"):
+                out = os.path.join(impl.scratch(), "c07m_out.txt")
+                rt = climain.run_main(["-q", "-r", "-b", basef, "-f", fmt] + (["-o", out] if fmt == "txt" else []) + ["."], cwd=d)
+                text = open(out).read() if fmt == "txt" and os.path.exists(out) else rt["stdout"]
+                if rt["exception"]:
+                    R.violations.append({"what": "format %s with a baseline ends in a traceback (%s)" % (fmt, rt["exception"]), "input": inp, "observed": "", "signature": None})
+                    continue
+                missing = [ln for ln in lines_now if not re.search(r"%s:%d(:|\b)" % (re.escape(dup), ln), text)]
+                if mine and missing:
+                    R.violations.append({"what": "format %s: the occurrence(s) of the reported finding on line(s) %s of %s are located nowhere in the report" % (fmt, missing, dup),
+                                         "input": inp, "observed": text[-600:], "signature": None})
+    shutil.rmtree(d, ignore_errors=True)
+
+
 def run(R, replay=None):
     rng = random.Random(R.seed)
     for f in core.gen():
@@ -194,4 +260,5 @@ def run(R, replay=None):
               "through main(), thresholds and baseline-capable formats varied; non-trivial = non-empty baseline")
     unit(R, rng, R.tier)
     system(R, rng, R.tier)
+    system_multi(R, rng, R.tier)
     R.disagreements_checked = R.evaluations
